@@ -505,7 +505,7 @@ def hs_cases(ctx, real):
                 hi = min(n, h + 7)
                 pairs = [(i, j) for i in range(1, hi) for j in range(i + 1, hi + 1) if j < n]
                 if ctx.quick:
-                    pairs = [pq for pq in pairs if pq[0] >= h - 10 or rng.random() < 0.25]
+                    pairs = [pq for pq in pairs if pq[0] >= h - 9 or rng.random() < 0.15]
                 chk += [[i, j - i, n - j] for i, j in pairs]
                 for _ in range(ctx.n(25, 300)):
                     cuts = sorted(set(rng.randrange(1, n) for _ in range(rng.choice([3, 4, 6, 9]))))
@@ -576,7 +576,7 @@ def model_hs(ctx, cases, chal):
             ll = '[' + ';'.join(zl(l[:-1]) if len(l) > 1 else '(@nil Z)' for l in part) + ']'
             exprs.append('map (fun l => srun_lens o%d c%d t%d sent l s%d) %s' % (k, k, k, k, ll))
             shape.append((k, part))
-    res = ctx.coq_eval(['DV.Model.Frame', 'DV.Model.Shake'], exprs, preamble='\n'.join(pre), chunk=14)
+    res = ctx.coq_eval(['DV.Model.Frame', 'DV.Model.Shake'], exprs, preamble='\n'.join(pre), chunk=36)
     out = [dict() for _ in cases]
     for (k, part), r in zip(shape, res):
         for lens, obs in zip(part, r):
